@@ -101,6 +101,41 @@ def parse_wmsc(app, g, problems, srs='EPSG:3857'):
     return wc
 
 
+def kml_overlays(app, g, problems, code, srs, addrs):
+    """the GroundOverlays (tile address from the image link, LatLonBox -> lattice rectangle in the grid SRS) of the KML
+    super-overlay documents of the tiles `addrs`"""
+    from lxml import etree
+    from mapproxy.srs import SRS
+    ns = {'k': 'http://www.opengis.net/kml/2.2'}
+    sc = app.scale
+    out = []
+    for (x, y, z) in addrs:
+        r = app.get('/kml/lay/%s/%d/%d/%d.kml' % (code, z, x, y), status='*')
+        if r.status_int != 200:
+            continue
+        doc = etree.fromstring(r.body)
+        for go in doc.findall('.//k:GroundOverlay', ns):
+            href = go.findtext('k:Icon/k:href', namespaces=ns)
+            m = re.search(r'/kml/lay/%s/(-?\d+)/(-?\d+)/(-?\d+)\.png' % code, href or '')
+            box = go.find('k:LatLonBox', ns)
+            if not m or box is None:
+                problems.append('KML GroundOverlay without tile link / LatLonBox in %s' % r.request.path)
+                continue
+            n, s_, e, w = [float(box.findtext('k:' + k, namespaces=ns)) for k in ('north', 'south', 'east', 'west')]
+            if srs != 'EPSG:4326':
+                (x0, y0), (x1, y1) = SRS(4326).transform_to(SRS(srs), [(w, s_), (e, n)])
+            else:
+                x0, y0, x1, y1 = w, s_, e, n
+            rect = []
+            for v in (x0, y0, x1, y1):
+                f = v / sc
+                if abs(f - round(f)) > 0.3:          # the document prints 6 decimals of a degree
+                    problems.append('KML LatLonBox corner %r is not on the lattice' % (v,))
+                rect.append(int(round(f)))
+            out.append({'f': 'kmlbox', 'a': [int(m.group(2)), int(m.group(3)), int(m.group(1))], 'rect': rect})
+    return out
+
+
 def fetch_wmsc(app, g, wc, a):
     """GetMap TILED=true for WMS-C tile (x, y) of resolution number n, computed from the real TileSet"""
     x, y, n = a
@@ -219,6 +254,27 @@ def exercise(ctx, label, name, g, app, cov, thorough, code='EPSG3857', latlon=Fa
                 elif status != 200 and cov is None:
                     ctx.violation({'kind': 'advertised-address-refused', 'grid': name, 'flavour': f},
                                   '%s: advertised address %s %s answered %s' % (label, f, a, status), None)
+    # KML super-overlay documents: the LatLonBox of every listed tile image
+    if not g.get('sf') and not g.get('so'):
+        docs = []
+        for z in range(len(g['res']) - 1):            # (the document of the last level is a 500: C18's matter)
+            gx, gy = grid_size(g, z)
+            cs = [(x, y, z) for x in range(gx) for y in range(gy)]
+            if len(cs) > 10 and not thorough:
+                ctx.rng.shuffle(cs)
+                cs = [(0, 0, z), (gx - 1, gy - 1, z), (0, gy - 1, z), (gx - 1, 0, z)] + cs[:6]
+            docs += cs
+        boxes = kml_overlays(app, g, problems, code, srs, docs)
+        seen = set()
+        if len(g['res']) > 1 and not boxes:
+            raise tlc.MachineryError('%s: no GroundOverlay found in the KML documents' % label)
+        ctx.cov['kml_latlonboxes'] = ctx.cov.get('kml_latlonboxes', 0) + len(boxes)
+        for b in boxes:
+            k_ = tuple(b['a'])
+            if k_ not in seen:
+                seen.add(k_)
+                tiles.append(b)
+                ctx.count((label, 'kmlbox', k_))
     gj = dict(g)
     gj['res'] = [int(round(r)) for r in g['res']]       # odd sqrt2 levels are never addressed publicly: rounded
     doc = {'grid': gj, 'tms': tms, 'wmts': wm, 'wmsc': wc, 'tiles': tiles, 'refused': refused}
@@ -324,7 +380,7 @@ def run(ctx):
     ctx.assumptions += [
         "lattice world, 'local' profile grids (the global-mercator / global-geodetic profiles that hide level 0 are covered "
         'by C16 for addressing and not here), EPSG:3857 only (no lat/long axis order)',
-        'the KML LatLonBox documents are not compared (KML tiles are, with the TMS convention)',
+        'KML: the LatLonBox of every GroundOverlay of the super-overlay documents (local profile grids) is compared with the tile its image link serves; Region / Lod elements are not',
         'only tiles completely inside the source coverage are decoded',
     ]
     return ctx.finish('model_checking',
